@@ -10,7 +10,10 @@ META = {
             "executed on a real IdmServer, every issued token (login UATs incl. passkey and anonymous, API tokens in both "
             "encodings) is presented through validate_client_auth_info_to_ident after every event, and every verdict is judged "
             "in TLA+ against the state projected from the real account and domain-key entries.",
-    "note": "exhaustive within the MC constants (1 account, <=2 login sessions + 1 api token, time 0..4, <=2 keys per usage); "
+    "note": "reading of the statement (lead decision): the grace window excuses a session record that is NOT YET WRITTEN, it never "
+            "makes a recorded-but-revoked (or expiry-mismatched) login session acceptable; API-token sessions are removed outright "
+            "on destroy (no revoked marker is observable), so for them the grace window excuses an absent record; "
+            "exhaustive within the MC constants (1 account, <=2 login sessions + 1 api token, time 0..4, <=2 keys per usage); "
             "beyond that simulated/random; trusted: TLC, the projection accessors in inlib/token.rs, unverified decoding of "
             "the token body for the claimed session id / expiry / kid",
     "design_ref": "DESIGN.md section 6, C32",
